@@ -360,6 +360,63 @@ func c06R3(ic *IC, r *Report) {
 	}
 	sort.Strings(cpNames)
 	r.Info["copier_functions"] = cpNames
+	// the copiers copy every settable value: the argument is returned unchanged only when it
+	// cannot alias storage (conditions on CanSet/CanAddr/IsValid), never depending on its kind
+	for f := range cp {
+		fi := ic.G.Funcs[f]
+		if fi == nil {
+			continue
+		}
+		var param types.Object
+		if len(fi.Decl.Type.Params.List) == 1 && len(fi.Decl.Type.Params.List[0].Names) == 1 {
+			param = ic.Info.ObjectOf(fi.Decl.Type.Params.List[0].Names[0])
+		}
+		bad := ""
+		ast.Inspect(fi.Decl.Body, func(nd ast.Node) bool {
+			rs, ok := nd.(*ast.ReturnStmt)
+			if !ok || len(rs.Results) != 1 {
+				return true
+			}
+			id, ok := unparen(rs.Results[0]).(*ast.Ident)
+			if !ok || ic.Info.ObjectOf(id) != param {
+				return true
+			}
+			// conditions guarding this early return
+			p := enclosingPath(fi.Decl.Body, rs)
+			for _, x := range p {
+				var conds []ast.Node
+				switch y := x.(type) {
+				case *ast.IfStmt:
+					conds = append(conds, y.Cond)
+				case *ast.SwitchStmt:
+					if y.Tag != nil {
+						conds = append(conds, y.Tag)
+					}
+				case *ast.CaseClause:
+					for _, e := range y.List {
+						conds = append(conds, e)
+					}
+				}
+				for _, c := range conds {
+					ast.Inspect(c, func(m ast.Node) bool {
+						if call, ok := m.(*ast.CallExpr); ok {
+							if cf, ok := calleeOf(ic.Info, call).(*types.Func); ok && cf.Pkg() != nil && cf.Pkg().Path() == "reflect" {
+								switch cf.Name() {
+								case "CanSet", "CanAddr", "IsValid":
+								default:
+									bad = "returns its argument unchanged under a condition on " + cf.Name() + "()"
+								}
+							}
+						}
+						return true
+					})
+				}
+			}
+			return true
+		})
+		r.Check(bad == "", "R06.3", f.Name()+"/copies-every-settable-value", ic.pos(fi.Decl.Pos()), "the argument is returned uncopied only when it cannot alias storage",
+			"the argument copier "+f.Name()+" "+bad+": for such values the defer/go record keeps a reflect.Value aliasing the variable, so a later assignment to the variable is seen by the deferred or spawned call (arguments not fixed at the statement)")
+	}
 	n := 0
 	for _, name := range sortedKeys(ic.F) {
 		fi := ic.F[name]
@@ -432,8 +489,9 @@ func c06R4(ic *IC, r *Report) {
 		r.Errorf("anchor not resolved: frame.recovered / deferred / anc")
 		return
 	}
-	// The unwinding function: the deferred literal that assigns recovered = recover().
+	// The unwinding function: the deferred literal that assigns recovered = recover() and runs the records.
 	found := 0
+	candidatesWithoutLoop := 0
 	for _, name := range sortedKeys(ic.F) {
 		fi := ic.F[name]
 		if fi.Decl.Body == nil {
@@ -454,10 +512,27 @@ func c06R4(ic *IC, r *Report) {
 				switch x := m.(type) {
 				case *ast.AssignStmt:
 					if len(x.Lhs) == 1 && len(x.Rhs) == 1 && selField(ic.Info, x.Lhs[0]) == recFld {
-						if c, ok := unparen(x.Rhs[0]).(*ast.CallExpr); ok {
-							if id, ok := c.Fun.(*ast.Ident); ok && id.Name == "recover" {
-								recAssign = x
+						isRecover := func(e ast.Expr) bool {
+							c, ok := unparen(e).(*ast.CallExpr)
+							if !ok {
+								return false
 							}
+							id, ok := c.Fun.(*ast.Ident)
+							return ok && id.Name == "recover"
+						}
+						if isRecover(x.Rhs[0]) {
+							recAssign = x
+						} else if id, ok := unparen(x.Rhs[0]).(*ast.Ident); ok {
+							// through a local: r := recover(); f.recovered = r
+							obj := ic.Info.ObjectOf(id)
+							ast.Inspect(fl.Body, func(k ast.Node) bool {
+								if as2, ok := k.(*ast.AssignStmt); ok && len(as2.Lhs) == 1 && len(as2.Rhs) == 1 {
+									if lid, ok := as2.Lhs[0].(*ast.Ident); ok && ic.Info.ObjectOf(lid) == obj && isRecover(as2.Rhs[0]) {
+										recAssign = x
+									}
+								}
+								return true
+							})
 						}
 					}
 				case *ast.RangeStmt:
@@ -480,6 +555,12 @@ func c06R4(ic *IC, r *Report) {
 				return true
 			})
 			if recAssign == nil {
+				return true
+			}
+			if loop == nil {
+				// a helper recording a new panic value (e.g. around one deferred call) is not the
+				// unwinding function; remember it in case no unwinding function is found at all
+				candidatesWithoutLoop++
 				return true
 			}
 			found++
@@ -511,8 +592,10 @@ func c06R4(ic *IC, r *Report) {
 			return false
 		})
 	}
-	if found != 1 {
-		r.Errorf("R06.4: %d unwinding functions (deferred literal assigning frame.recovered = recover()) found, expected 1", found)
+	if found == 0 && candidatesWithoutLoop > 0 {
+		r.Fail("R06.4", "runCfg/unwind/runs-deferred", "", "a deferred function captures the panic value into frame.recovered but none ranges over frame.deferred: deferred calls never run")
+	} else if found != 1 {
+		r.Errorf("R06.4: %d unwinding functions (deferred literal assigning frame.recovered = recover() and running the deferred records) found, expected 1", found)
 	}
 	// recover builtin: reads and clears f.anc.recovered.
 	rec := ic.F["_recover"]
